@@ -4,6 +4,7 @@
 //! inputs and prints observation records for the Lean driver on stdout.
 
 mod config;
+mod drcp;
 mod model;
 mod post;
 mod rng;
@@ -417,6 +418,24 @@ fn mode_tap(args: &Args) {
     }
 }
 
+/// C19: DRCP text and literal definitions
+fn mode_drcp(args: &Args) {
+    let mut master = Rng::new(args.seed);
+    for i in 0..args.cases {
+        let case_seed = master.next();
+        if only_skip(args, i) {
+            continue;
+        }
+        let mut r = Rng(case_seed);
+        let id = format!("{}-{}", args.seed, i);
+        run_case(&id, &format!("scen=drcp seed={}", case_seed), |out| {
+            drcp::case_write_read(&mut r, out);
+            drcp::case_reader_soup(&mut r, out);
+            drcp::case_lits_and_negation(&mut r, out);
+        });
+    }
+}
+
 /// One hand-written case: `pharness one --scen satisfy --model "<text>" [--opts ".."] [--brancher ".."]
 /// [--style N] [--cumopt I] [--assume "<atoms>"] [--obj "<view>"] [--max 0|1] [--lus 0|1] [--id name]`
 fn mode_one(args: &Args) {
@@ -496,6 +515,7 @@ fn main() {
         "one" => mode_one(&args),
         "bounds" => mode_bounds(&args),
         "tap" => mode_tap(&args),
+        "drcp" => mode_drcp(&args),
         "configs" => mode_configs(&args),
         "interrupt" => mode_interrupt(&args),
         "history" => mode_history(&args),
